@@ -274,7 +274,7 @@ Proof.
     assert (Hn : next_type s = STRING) by (rewrite next_type_pt, Hp; reflexivity).
     rewrite Hn.
     assert (Hv : vlx (VTok (mkTok STRING (lit tk) pos0 pos0) pos0 pos0)) by (constructor; [exact I|reflexivity]).
-    destruct (pop_value_top_back _ s rest Hv ltac:(cbn; unfold max_value_depth; lia) Hp) as (v & s' & E & Hdv & Hp'). rewrite E. cbn [wbind].
+    destruct (pop_value_top_back _ s rest Hv ltac:(cbn [vdepth]; apply N.le_0_l) Hp) as (v & s' & E & Hdv & Hp'). rewrite E. cbn [wbind].
     eexists _, s'. split; [reflexivity|]. unfold tag_doc. cbn. rewrite Eb, Hdv. cbn. unfold etok. cbn. rewrite Hb. auto.
 Qed.
 
